@@ -407,23 +407,24 @@ class ChooseOp(IRDLOperation):
         # Make sure that all operand types are equal for all operations
         data_operand_types = ChooseOp._check_operand_types(data_operands, operations)
         # Default operation
+
+        def clone_into_block(operation: Operation, block: Block) -> Operation:
+            # connect the operands by position: an operation can use the same value for multiple
+            # operands, these still have to be connected to the different ports of the choose_op
+            result = operation.clone()
+            assert len(result.operands) == len(block.args)
+            result.operands = block.args
+            return result
+
         default_block = Block(arg_types=data_operand_types)
-        value_mapper = {
-            SSAValue.get(arg): SSAValue.get(val)
-            for arg, val in zip(operations[0].operands, default_block.args, strict=True)
-        }
-        default_block.add_ops([result := operations[0].clone(value_mapper), YieldOp(result)])
+        default_block.add_ops([result := clone_into_block(operations[0], default_block), YieldOp(result)])
         default_region = Region(default_block)
         # Non-default
         case_regions: list[Region] = []
         if len(operations) > 1:
             for operation in operations[1:]:
                 case_block = Block(arg_types=data_operand_types)
-                value_mapper = {
-                    SSAValue.get(arg): SSAValue.get(val)
-                    for arg, val in zip(operation.operands, case_block.args, strict=True)
-                }
-                case_block.add_ops([result := operation.clone(value_mapper), YieldOp(result)])
+                case_block.add_ops([result := clone_into_block(operation, case_block), YieldOp(result)])
                 case_regions.append(Region(case_block))
         return ChooseOp(
             name=name,
